@@ -18,7 +18,7 @@ Record taskdef := {
 
 Record taskres := { tr_name : name; tr_skipped : bool; tr_cmds : list cmdres }.
 
-Record flags := { f_quiet : bool; f_json : bool; f_force : bool; f_show : bool; f_vars : bool; f_clean : bool }.
+Record flags := { f_quiet : bool; f_json : bool; f_force : bool; f_show : bool; f_vars : bool; f_clean : bool; f_debug : bool }.
 
 Definition cmd_ok (c : cmdres) : bool := Nat.eqb (c_status c) 0.
 Definition cmds_ok (l : list cmdres) : bool := forallb cmd_ok l.
@@ -54,7 +54,8 @@ Inductive stdout_doc :=
 | SDVars (vs : list (name * bytes))           (* the variable table of --vars: every variable with its evaluated value *)
 | SDCleaned.                                  (* the messages of the built-in --clean (their text is not modelled) *)
 
-Inductive err_kind := ECommandFailed (t : name) (cmd : bytes) (status : nat) | ESelection (e : gerr) | ERun (e : errk).
+Inductive err_kind := ECommandFailed (t : name) (cmd : bytes) (status : nat) | ESelection (e : gerr) | ERun (e : errk)
+  | EUsage.                                    (* --debug together with --quiet is refused before anything is looked at *)
 
 Record observation := {
   ob_exit : nat;                               (* process exit status: 0 or 1 *)
@@ -129,7 +130,8 @@ Definition run_req (defs : list taskdef) (s : st DI) (f : flags) (req : list nam
 Definition invoke (defs : list taskdef) (vars : list (name * bytes)) (s : st DI) (f : flags) (req : list name) : st DI * observation :=
   let hidden := f_quiet f || f_json f in     (* the stream the listings and messages go to is discarded *)
   let quiet_ok d := {| ob_exit := 0; ob_error := None; ob_stdout := if hidden then SDNothing else d; ob_executed := [] |} in
-  if f_vars f then (s, quiet_ok (SDVars (sort_vars vars)))
+  if f_quiet f && f_debug f then (s, {| ob_exit := 1; ob_error := Some EUsage; ob_stdout := SDNothing; ob_executed := [] |})
+  else if f_vars f then (s, quiet_ok (SDVars (sort_vars vars)))
   else if f_clean f then
     (* a task named clean replaces the built-in clean (task names given on the command line play no part);
        the built-in one removes the cache directory (and the declared outputs: Effects.v) *)
